@@ -93,7 +93,8 @@ PROPS = {
         'assumptions': ['partial: encoding/json text layer is an inverse pair (contract); the theorems cover the JSON typing function and the transaction structure of import/export'],
     },
     'C20': {
-        'streams': [HIST('hist', 100, 1200), HIST('hist_catalog', 50, 500, ['--focus', 'catalog']), HIST('hist_reopen', 20, 200, ['--backend', 'bbolt,badgerdisk', '--focus', 'reopen'])],
+        'streams': [HIST('hist', 100, 1200), HIST('hist_catalog', 50, 500, ['--focus', 'catalog']), HIST('hist_reopen', 20, 200, ['--backend', 'bbolt,badgerdisk', '--focus', 'reopen']),
+                    {'name': 'json', 'quick': 4, 'thorough': 40, 'args': ['--backend', 'all']}],
         'assumptions': ['safety-only: the model is total and returns a declared result class for every operation; only panic sites the transcription makes explicit are covered by the theorem, the rest by recover() and deadlines around every public call in every stream'],
     },
 }
